@@ -74,6 +74,14 @@ def _run_one(args):
             return (v.name, "detected-as-analysis-error" if not v.twin else "twin-analysis-error", str(e)[:200])
         new = {k: r for k, r in got.items() if k not in base}
         if v.twin:
+            # a benign refactoring may move code (and with it an already known defect) into another function: a twin
+            # is silent when it adds no (rule, construct) that the clean tree does not already report
+            def rc(k):
+                parts = k.split("|", 3)
+                return (parts[1], parts[3]) if len(parts) == 4 else k
+
+            base_rc = {rc(k) for k in base}
+            new = {k: r for k, r in new.items() if rc(k) not in base_rc}
             return (v.name, "silent" if not new else "FALSE-ALARM", "; ".join(sorted(new))[:300])
         hit = [k for k, r in new.items() if v.rule is None or r == v.rule]
         if hit:
